@@ -546,6 +546,8 @@ func c18R3(p *Prog, r *Report) {
 		}
 		r.Check(ok && n >= 1, rule, "service.(*"+site.recv+").Initialize:psk-length-before-cipher", p.posStr(fc.Body.Pos()), fmt.Sprintf("%d cipher configurations derived only after CheckPSKLength succeeded", n), "a cipher configuration is derived from keys whose length was not checked against the method")
 	}
+	// the sliding window filter size is bounded before a filter can be built from it
+	c18FilterSize(p, r, rule)
 	// the check itself tests every key it is given: the user key and each element of the key list
 	c18PSKCheckCoversEveryKey(p, r, rule)
 	// every protocol with ss2022 keys is covered: the case list that checks PSK equals the case lists that build ss2022 servers/clients
@@ -1716,4 +1718,86 @@ func c18ClientAddresses(p *Prog, r *Report, rule string) {
 		}
 	}
 	r.Check(okOrder, rule, "service.(*ClientConfig).Initialize:addresses-checked-before-use", p.posStr(ci.Body.Pos()), "every use of the server addresses in Initialize lies behind the success of checkAddresses", "Initialize uses TCPAddress/UDPAddress on a path that did not pass checkAddresses successfully")
+}
+
+// c18FilterSize: the sliding window filter's ring is sized 1 << bits.Len64(size+63) bits. A configured
+// size of 2^63-63 or more makes that shift 64 — a ZERO-length ring that panics (index out of range) on the
+// first authenticated UDP packet; sizes above 2^54 panic in makeslice when the first session is created.
+// The option is a plain uint64 in the configuration, so the loader must refuse sizes the constructor cannot
+// honour: every constructor call in package service that is given the configured size lies behind the
+// "not greater than K" edge of a comparison of that field with a constant K <= 2^40.
+func c18FilterSize(p *Prog, r *Report, rule string) {
+	pkg := p.Pkg("service")
+	n := 0
+	p.AllFuncs(pkg, func(top *FuncCtx) {
+		fc := p.Inlined(top)
+		info := fc.Info()
+		for _, cs := range fc.AllCalls() {
+			if cs.Fn == nil || cs.Fn.Pkg() == nil || !strings.HasSuffix(cs.Fn.Pkg().Path(), "/ss2022") {
+				continue
+			}
+			sig := cs.Fn.Type().(*types.Signature)
+			for i := 0; i < sig.Params().Len() && i < len(cs.Call.Args); i++ {
+				if !strings.Contains(strings.ToLower(sig.Params().At(i).Name()), "filtersize") && sig.Params().At(i).Name() != "size" {
+					continue
+				}
+				if b, ok := sig.Params().At(i).Type().Underlying().(*types.Basic); !ok || b.Kind() != types.Uint64 {
+					continue
+				}
+				arg := fc.Resolve(cs.Call.Args[i])
+				f := fieldOrVar(info, arg)
+				if f == nil || !isField(f) {
+					continue
+				}
+				n++
+				var bounded []Edge
+				var bound int64 = -1
+				for _, v := range fc.G.V {
+					x, y, op, ok := condPartsCmp(v)
+					if !ok {
+						continue
+					}
+					if fieldOrVar(info, fc.Resolve(x)) != f {
+						continue
+					}
+					k, isC := constInt(info, y)
+					if !isC || k < 0 || k > 1<<40 {
+						continue
+					}
+					okLabel := -1
+					switch op {
+					case token.GTR, token.GEQ:
+						okLabel = LFalse
+					case token.LEQ, token.LSS:
+						okLabel = LTrue
+					}
+					for _, e := range v.Succs {
+						if e.Label == okLabel {
+							bounded = append(bounded, e)
+							bound = k
+						}
+					}
+				}
+				r.Check(len(bounded) > 0 && fc.G.EdgeDominates(bounded, cs.V), rule, fmt.Sprintf("%s:filter-size-bounded:%s", top.Name, cs.Fn.Name()), cs.Pos(), fmt.Sprintf("the configured size reaches %s only when it is at most %d", cs.Fn.Name(), bound),
+					"the configured sliding window filter size ("+exprStr(cs.Call.Args[i])+", any uint64) reaches "+cs.Fn.FullName()+" without an upper bound: a size of 2^63-63 or more yields a zero-length ring (1 << 64) and the first authenticated UDP packet panics with index out of range; sizes above 2^54 panic in makeslice when the first session is created")
+			}
+		}
+	})
+	r.Check(n >= 2, rule, "service:filter-size-consumers", "", "server and client consumers of the configured filter size found", fmt.Sprintf("only %d consumers of the configured sliding window filter size found", n))
+}
+
+// condPartsCmp views a condition vertex as an ordered comparison x op y (<, <=, >, >=).
+func condPartsCmp(v *Vertex) (x, y ast.Expr, op token.Token, ok bool) {
+	if v.Kind != VCond {
+		return nil, nil, 0, false
+	}
+	b, isBin := ast.Unparen(v.Node.(ast.Expr)).(*ast.BinaryExpr)
+	if !isBin {
+		return nil, nil, 0, false
+	}
+	switch b.Op {
+	case token.GTR, token.GEQ, token.LSS, token.LEQ:
+		return b.X, b.Y, b.Op, true
+	}
+	return nil, nil, 0, false
 }
